@@ -98,3 +98,6 @@ mod use_color;
 mod verifier;
 mod walker;
 mod xor_args;
+
+#[cfg(imdl_verif)]
+pub mod verif;
